@@ -257,6 +257,7 @@ def run(ctx):
     _cycle_search_is_linear(ctx)
     _cycle_search_starts_from_one_node(ctx)
     _edges_do_not_depend_on_the_graph_so_far(ctx)
+    _every_library_added_so_far_is_discounted(ctx)
     _every_type_of_the_module_contributes_edges(ctx)
     # emission loops (iterator-style `for` or range-for)
     n_em = 0
@@ -547,3 +548,47 @@ def _every_type_of_the_module_contributes_edges(ctx):
                "every global type of the module with a library name has its derivations scanned" if ok else
                ("a `continue` skips some types before their derivations are scanned" if skips else "the scan also depends on %s()" % callee_short(foreign[0])))
     ctx.floor("R16.7", "loops over the global types that scan derivations", n, 1)
+
+
+def _every_library_added_so_far_is_discounted(ctx):
+    """R16.8: a library is emitted once every library it depends on has been emitted.  The ordering loop discounts the
+    emitted libraries from each pending set by erasing them; a set inspected for the first time in a later pass has had
+    none of the earlier ones erased, so the erase loop must run over the WHOLE `libraries` vector: a range-for, or an
+    iterator loop initialised with plain `libraries.begin()` and compared against `libraries.end()`.  (Seed S12-C16:
+    `libraries.begin() + num_checked`; a deriving library that sorts before its base never became ready and
+    interrogate_module printed "Circular dependency" forever.)"""
+    db = ctx.db
+    ctx.rule("R16.8", "in write_python_table_native the loop that erases emitted libraries from a pending set starts at libraries.begin()")
+    fs = [g for g in db.functions if g.name.endswith("write_python_table_native")]
+    if not fs:
+        ctx.broken("R16.8: write_python_table_native not found")
+        return
+    f = fs[0]
+    n = 0
+    for lp in f.walk():
+        if lp.get("k") not in ("for", "forrange"):
+            continue
+        body = lp.get("body") or {}
+        if any(z.get("k") in ("for", "forrange", "while", "do") for z in walk(body) if z is not body):
+            continue            # innermost loops only
+        er = [c for c in walk(body) if c.get("k") == "call" and (c.get("f") or "").endswith("set::erase")]
+        if not er:
+            continue
+        if lp.get("k") == "forrange":
+            rng = strip_casts(lp.get("range") or {})
+            if not (rng and rng.get("k") == "ref" and "vector" in (rng.get("t") or "") + (rng.get("ct") or "")):
+                continue
+            n += 1
+            ctx.ob("R16.8", "write_python_table_native|erase-loop@%s|whole-vector" % f.loc(lp).split(":")[-1], True, f.loc(lp), "range-for over the whole vector")
+            continue
+        decls = (lp.get("init") or {}).get("d") or []
+        if len(decls) != 1:
+            continue
+        ini = peel(decls[0].get("init") or {})
+        if "vector" not in (decls[0].get("t") or ""):
+            continue
+        n += 1
+        whole = ini.get("k") == "call" and (ini.get("f") or "") in ("std::vector::begin", "std::vector::cbegin") and not ini.get("a")
+        ctx.ob("R16.8", "write_python_table_native|erase-loop@%s|whole-vector" % f.loc(lp).split(":")[-1], whole, f.loc(lp),
+               "starts at begin()" if whole else "starts at `%s`: libraries emitted before that position are never discounted from a set seen later" % show(decls[0].get("init") or {}))
+    ctx.floor("R16.8", "erase loops over the emitted libraries", n, 1)
